@@ -21,7 +21,8 @@ type Mutation struct {
 }
 
 type NStep struct {
-	K    string     `json:"k"` // timeout | propose | prepares | commits | cand
+	Next bool       `json:"next,omitempty"` // cand: the candidate is built for the NEXT height (view 0 there) and delivered now, i.e. into the future cache
+	K    string     `json:"k"`              // timeout | propose | prepares | commits | cand | round (the others play a complete valid round: the node commits its height)
 	View uint64     `json:"view,omitempty"`
 	Kind string     `json:"kind,omitempty"` // cand: PP | P | C | VC | NV
 	From int        `json:"from,omitempty"` // cand: which member plays the sender (index into the others), where a choice exists
@@ -37,6 +38,7 @@ type NCase struct {
 }
 
 type NRun struct {
+	nextH        bool                    // while set, candidates are built as if the node were already at the next height, view 0
 	lastNVBlocks map[uint64]*fakes.Block // blocks proven by the proofs inside the last valid NEW_VIEW that was built
 	W            *World
 	Me           *Node
@@ -75,8 +77,18 @@ func RunNCase(c NCase) *NRun {
 	return r
 }
 
-func (r *NRun) h() uint64 { return r.Me.H() }
-func (r *NRun) v() uint64 { return r.Me.V() }
+func (r *NRun) h() uint64 {
+	if r.nextH {
+		return r.Me.H() + 1
+	}
+	return r.Me.H()
+}
+func (r *NRun) v() uint64 {
+	if r.nextH {
+		return 0
+	}
+	return r.Me.V()
+}
 
 func (r *NRun) others() []int { return r.W.Cfg.Byz }
 
@@ -127,16 +139,22 @@ func (r *NRun) step(st NStep) {
 			ref_ := a.ref(TC, r.h(), st.View, hash)
 			r.deliverSpec("valid-commit", &MsgSpec{Union: UC, Ref: ref_, Sender: a.signedRef(o, ref_), Share: a.share(o, r.h())})
 		}
+	case "round":
+		r.CommitRound()
 	case "cand":
+		r.nextH = st.Next
 		sp := r.candidate(st)
+		n := 0
+		if sp != nil {
+			for _, mu := range st.Muts {
+				if r.mutate(sp, mu) {
+					n++
+				}
+			}
+		}
+		r.nextH = false
 		if sp == nil {
 			return
-		}
-		n := 0
-		for _, mu := range st.Muts {
-			if r.mutate(sp, mu) {
-				n++
-			}
 		}
 		acc := r.deliverSpec("cand:"+st.Kind, sp)
 		r.Accepted = append(r.Accepted, acc)
@@ -159,6 +177,9 @@ func (r *NRun) freshBlock(tag string) *fakes.Block {
 	prev := ""
 	if b := r.W.Mon.per[r.Me.Idx].blockFor[h]; b != nil {
 		prev = b.ID
+	}
+	if r.nextH { // the block the scripted round will commit at the current height (see CommitRound / validProposal: "blk/<h>/v0")
+		prev = fmt.Sprintf("blk/%d/v0", h-1)
 	}
 	return &fakes.Block{H: primitives.BlockHeight(h), Ref: primitives.TimestampSeconds(1000 + uint32(h)), ID: fmt.Sprintf("blk/%d/%s", h, tag), Prev: prev, Valid: true}
 }
